@@ -15,12 +15,16 @@ LEVEL_TEXT = ("Every statement of the generated family - all trees up to depth 3
               "element-wise within a bound computed from the data. Product chains of length 2..5 are instantiated for every extent pattern of the stated "
               "set (so every branch of the cost model's association choice is taken) and compared exactly with the left-to-right product.")
 RULE = ("cases = (statement, element type, size) and (chain extent pattern, form); run-time points = three operand data sets (two for chains); evaluation = one "
-        "lazy execution judged against the eager execution (chains: against the exact reference); non-trivial = the statement changes the destination")
+        "lazy execution judged against the eager execution (eight further eager executions on perturbed operands measure the conditioning and are not counted) (chains: against the exact reference); non-trivial = the statement changes the destination")
 ASSUMPTIONS = [
     "the eager functions are themselves correct (that is C01, C10, C14, C16's business); this check decides only lazy == eager",
     "which overload of the staged-assignment machinery fires depends on the tree shape only, not on operand values: three data sets per statement",
     "the destination as an operand of an evaluation-requiring node is outside the statement's scope and is not generated",
-    "bound: 64*n*u*(max|D_eager| + |D_eager(i)|): both spellings run the same kernels, possibly associated differently",
+    "bound: 64*n*u*(max|D_eager| + |D_eager(i)|) + 4*sens(i): both spellings run the same kernels, possibly associated differently; sens(i) = measured change "
+    "of element i of the eager result when every operand entry is moved by +-16u (four sign patterns)",
+    "an element that is finite on the data and stops being finite under such a perturbation, or moves by a quarter of its value or more with a saturated "
+    "response (+-64u moves it less than twice as far as +-16u: division by rounding noise), has no rounding bound and is counted "
+    "(route info.ill_conditioned_elements_not_judged) but not judged; none on the present operand data",
 ]
 
 
